@@ -168,6 +168,11 @@ func c15bAttachment(maxNonPlain int, only []string) {
 		return r
 	}
 	count := func(c bool) int { return nd.IteInt(c, 1, 0) }
+	// the same annotation keyword on both doc lines of A2 is outside the claim (the property does not say whether a
+	// repeated annotation yields one or two records; with @immutable twice its @mutable fields are recorded twice)
+	for _, alt := range []string{" @immutable", " @constructor New, Make", " @testonly", " @packageonly w", " @implements &pk.Iface"} {
+		nd.Assume(nd.Not(nd.And(is("s13", alt), is("s19", alt))))
+	}
 	// G is a member of the type(...) group documented by s2 AND has its own doc s15: its own doc must take effect;
 	// whether the group's doc also reaches a member that has its own doc is not stated by the property (don't care),
 	// so annotations on G are counted separately: required when s15 says so, forbidden when neither s15 nor s2 does.
